@@ -1,17 +1,20 @@
 (* C18 — ORM export is reproducible.
    Pinned statements only: each theorem is closed by [exact] of a lemma proved in Proofs/. *)
-From VV.EXP Require Import Imports Names ImportsP NamesP.
+From VV.EXP Require Import Imports Names SiteTables ImportsP NamesP.
 From Coq Require Import Permutation Sorted.
 
-(* where the code sorts after collecting, the oracle (= hash iteration order) cannot be observed *)
-Theorem C18_sorted_imports_oracle_free : forall pi pi' t, admissible pi -> admissible pi' ->
-  sqlalchemy_imports_sorted_part pi t = sqlalchemy_imports_sorted_part pi' t.
-Proof. exact sorted_imports_oracle_free. Qed.
-Print Assumptions C18_sorted_imports_oracle_free.
-Check C18_sorted_imports_oracle_free : forall pi pi' t, admissible pi -> admissible pi' ->
-  sqlalchemy_imports_sorted_part pi t = sqlalchemy_imports_sorted_part pi' t.
+(* both import blocks are functions of the table alone: every collected HashSet is sorted before use (the datetime
+   names too since fix 44cb6cb), so no iteration order (= oracle) can be observed — for ALL tables *)
+Theorem C18_imports_oracle_free : forall pa pa' pd pd' t,
+  admissible pa -> admissible pa' -> admissible pd -> admissible pd' ->
+  sqlalchemy_imports pa pd t = sqlalchemy_imports pa' pd' t /\ sqlmodel_imports pd t = sqlmodel_imports pd' t.
+Proof. exact imports_oracle_free. Qed.
+Print Assumptions C18_imports_oracle_free.
+Check C18_imports_oracle_free : forall pa pa' pd pd' t,
+  admissible pa -> admissible pa' -> admissible pd -> admissible pd' ->
+  sqlalchemy_imports pa pd t = sqlalchemy_imports pa' pd' t /\ sqlmodel_imports pd t = sqlmodel_imports pd' t.
 
-(* ... and what it shows instead is THE byte-wise order of the inserted names (String.compare on the UTF-8 bytes =
+(* what the sorted lines show is THE byte-wise order of the inserted names (String.compare on the UTF-8 bytes =
    Rust's Ord for str, upper case before lower case): K-exp compares this text, order included, with every
    variant of the line the real exporter produced, so another sort key is a correspondence mismatch *)
 Theorem C18_sa_line_bytewise_sorted : forall pi t, admissible pi ->
@@ -25,39 +28,20 @@ Check C18_sa_line_bytewise_sorted : forall pi t, admissible pi ->
             /\ Permutation l (hs_of_inserts (sa_inserts t) [])
             /\ StronglySorted (fun a b => String.compare a b <> Gt) l.
 
-(* D5: the `from datetime import ...` line is an unsorted iteration *)
-Theorem C18_datetime_imports_refuted :
-  exists t pi pi', admissible pi /\ admissible pi' /\ datetime_line pi t <> datetime_line pi' t.
-Proof. exact datetime_imports_refuted. Qed.
-Print Assumptions C18_datetime_imports_refuted.
-Check C18_datetime_imports_refuted :
-  exists t pi pi', admissible pi /\ admissible pi' /\ datetime_line pi t <> datetime_line pi' t.
+Theorem C18_datetime_line_bytewise_sorted : forall pi t, admissible pi ->
+  exists l, Permutation l (hs_of_inserts (dt_inserts t) []) /\ StronglySorted (fun a b => String.compare a b <> Gt) l
+            /\ datetime_line pi t = match l with [] => [] | _ => ["from datetime import " +++ join ", " l] end.
+Proof. exact datetime_line_bytewise_sorted. Qed.
+Print Assumptions C18_datetime_line_bytewise_sorted.
+Check C18_datetime_line_bytewise_sorted : forall pi t, admissible pi ->
+  exists l, Permutation l (hs_of_inserts (dt_inserts t) []) /\ StronglySorted (fun a b => String.compare a b <> Gt) l
+            /\ datetime_line pi t = match l with [] => [] | _ => ["from datetime import " +++ join ", " l] end.
 
-Theorem C18_sqlalchemy_imports_refuted :
-  exists t pi pi', admissible pi /\ admissible pi' /\
-    sqlalchemy_imports id_oracle pi t <> sqlalchemy_imports id_oracle pi' t.
-Proof. exact sqlalchemy_imports_refuted. Qed.
-Print Assumptions C18_sqlalchemy_imports_refuted.
-Check C18_sqlalchemy_imports_refuted :
-  exists t pi pi', admissible pi /\ admissible pi' /\
-    sqlalchemy_imports id_oracle pi t <> sqlalchemy_imports id_oracle pi' t.
-
-Theorem C18_sqlmodel_imports_refuted :
-  exists t pi pi', admissible pi /\ admissible pi' /\ sqlmodel_imports pi t <> sqlmodel_imports pi' t.
-Proof. exact sqlmodel_imports_refuted. Qed.
-Print Assumptions C18_sqlmodel_imports_refuted.
-Check C18_sqlmodel_imports_refuted :
-  exists t pi pi', admissible pi /\ admissible pi' /\ sqlmodel_imports pi t <> sqlmodel_imports pi' t.
-
-(* outside the known class (at most one date/time kind) both import blocks are oracle free *)
-Theorem C18_imports_oracle_free_outside_known : forall pa pa' pd pd' t,
-  admissible pa -> admissible pa' -> admissible pd -> admissible pd' -> known_C18_datetime t = false ->
-  sqlalchemy_imports pa pd t = sqlalchemy_imports pa' pd' t /\ sqlmodel_imports pd t = sqlmodel_imports pd' t.
-Proof. exact imports_oracle_free_outside_known. Qed.
-Print Assumptions C18_imports_oracle_free_outside_known.
-Check C18_imports_oracle_free_outside_known : forall pa pa' pd pd' t,
-  admissible pa -> admissible pa' -> admissible pd -> admissible pd' -> known_C18_datetime t = false ->
-  sqlalchemy_imports pa pd t = sqlalchemy_imports pa' pd' t /\ sqlmodel_imports pd t = sqlmodel_imports pd' t.
+(* no hash iteration of the scanned crates reaches an output unsorted any more *)
+Theorem C18_no_iterated_unsorted_site : iterated_unsorted_ids = [].
+Proof. vm_compute. reflexivity. Qed.
+Print Assumptions C18_no_iterated_unsorted_site.
+Check C18_no_iterated_unsorted_site : iterated_unsorted_ids = [].
 
 (* SeaORM: every observation its code makes on a hash container (contains, len, get by key) is oracle free;
    that it makes no other observation is the HashSites inventory (no iteration site in seaorm/mod.rs) *)
@@ -90,16 +74,18 @@ Check C18_slice_order_columns_enums : forall s s' t d d',
   members s t = Ok d -> members s' t = Ok d' ->
   filter is_col_member (d_members d) = filter is_col_member (d_members d') /\ d_enums d = d_enums d'.
 
-(* the full-strength statement (a definition, not a claim): it is FALSE of the model, see the refutations *)
+(* the full-strength statement (a definition, not a claim): its first half is C18_imports_oracle_free, its
+   second half is FALSE, see C18_slice_order_refuted *)
 Definition C18_full_statement : Prop :=
   (forall pa pa' pd pd' t, admissible pa -> admissible pa' -> admissible pd -> admissible pd' ->
      sqlalchemy_imports pa pd t = sqlalchemy_imports pa' pd' t /\ sqlmodel_imports pd t = sqlmodel_imports pd' t)
   /\ (forall s s' t, Permutation s s' -> members s t = members s' t).
 
-(* non-vacuity: both oracles used in the refutations are admissible and differ; the known class is inhabited *)
+(* non-vacuity: two different admissible oracles exist, and on the former D5 witness both give one sorted line *)
 Example C18_nonvacuous :
   admissible id_oracle /\ admissible rev_oracle /\ rev_oracle ["a"; "b"] <> id_oracle ["a"; "b"]
-  /\ known_C18_datetime d5_table = true /\ known_C18_datetime d14_user = false.
+  /\ datetime_line id_oracle d5_table = ["from datetime import date, datetime, time"]
+  /\ datetime_line rev_oracle d5_table = ["from datetime import date, datetime, time"].
 Proof.
-  split; [apply id_admissible|]. split; [apply rev_admissible|]. split; [discriminate|]. split; reflexivity.
+  split; [apply id_admissible|]. split; [apply rev_admissible|]. split; [discriminate|]. split; vm_compute; reflexivity.
 Qed.
